@@ -45,22 +45,23 @@ type ShardTrace struct {
 	Ready bool
 	Calls []*simnet.Call // in release order
 
-	StatusOK bool
-	Rep      map[uint64]*target.ScrapeStatus // nil unless the client obtained the status map
-	RT       []*shard.RuntimeInfo            // every runtimeinfo answer the client obtained
-	RTLastOK bool                            // the last runtimeinfo request was answered
-	PushSeen bool                            // POST status/config attempted
-	PushBody string
-	PushOK   bool
-	PushSeq  int
-	Post     map[uint64]*target.Target // attempted POST shard/targets (nil if none)
-	PostJobs map[uint64]string
-	PostSeq  int
+	StatusOK      bool
+	Rep           map[uint64]*target.ScrapeStatus // nil unless the client obtained the status map
+	RT            []*shard.RuntimeInfo            // every runtimeinfo answer the client obtained
+	RTLastOK      bool                            // the last runtimeinfo request was answered
+	PushSeen      bool                            // POST status/config attempted
+	PushBody      string
+	PushOK        bool
+	PushSeq       int
+	Post          map[uint64]*target.Target // attempted POST shard/targets (nil if none)
+	PostJobs      map[uint64]string
+	PostSeq       int
 	PostDelivered bool
-	PostDup  []uint64 // hashes occurring more than once in the POST
-	ExtraSeen bool
-	FirstPostSeq int // first POST of any kind other than the config push
-	InSync   bool
+	PostStatus    int      // HTTP status the sidecar answered with (0: none)
+	PostDup       []uint64 // hashes occurring more than once in the POST
+	ExtraSeen     bool
+	FirstPostSeq  int // first POST of any kind other than the config push
+	InSync        bool
 	// Truth, when non-nil, is what the harness knows the shard is scraping at the
 	// start of the cycle (scripted copies, or the real sidecar's state), whether
 	// or not the coordinator asked for it. StatusWouldAnswer: its status endpoint
@@ -163,6 +164,7 @@ func BuildShard(id string, ready bool, calls []*simnet.Call, coordHash string) *
 			}
 			s.PostSeq = c.Seq
 			s.PostDelivered = c.Delivered
+			s.PostStatus = c.Status
 		case "POST /api/v1/status/extra_config":
 			if s.FirstPostSeq == 0 {
 				s.FirstPostSeq = c.Seq
